@@ -79,8 +79,17 @@ def auto_mutants(model, quals, limit, seed):
             continue
         spans.append((q, fn.lineno, getattr(fn, "end_lineno", fn.lineno)))
     cands = []
+    import ast as _ast
+    doc_lines = set()
+    for n in _ast.walk(model.tree):
+        if isinstance(n, (_ast.FunctionDef, _ast.ClassDef, _ast.Module)) and n.body and isinstance(n.body[0], _ast.Expr) and isinstance(n.body[0].value, _ast.Constant) \
+                and isinstance(n.body[0].value.value, str):
+            d = n.body[0]
+            doc_lines.update(range(d.lineno - 1, (d.end_lineno or d.lineno)))
     for q, lo, hi in spans:
         for ln in range(lo, hi):  # 0-based index ln = line lo+1 .. hi
+            if ln in doc_lines:
+                continue
             text = lines[ln]
             if text.strip().startswith("#") or text.strip().startswith('"""') or not text.strip():
                 continue
